@@ -69,12 +69,15 @@ def run_fresh(fn, operands=()):
     if o is r1: return out          # returning an operand itself is not forbidden by the property: no in-place probe then
   try:
     n = int(r1.nbits)
-    r1 @= (int(r1.uint()) ^ ((1 << n) - 1))        # in-place update of the returned object
-    r1[0] = 1 - int(r1[0])
-    r2 = fn()
+    r1 @= (int(r1.uint()) ^ ((1 << n) - 1))        # in-place update of the returned object ...
+    r2 = fn()                                      # ... (evaluated after EACH update: for a 1-bit result the two updates cancel)
+    if canon_bits(r2) == out and r2 is not r1:
+      r1[0] = 1 - int(r1[0])
+      r2 = fn()
   except Exception as e:
     return f'alias second-evaluation-raised {type(e).__name__} {out}'
   if canon_bits(r2) != out: return f'alias result-changed-after-in-place-update-of-earlier-result {out} -> {canon_bits(r2)}'
+  if r2 is r1: return f'alias same-object-returned-twice {out}'
   after = [(id(o), int(o.nbits), int(o.uint())) for o in operands if isinstance(o, Bits)]
   if after != before: return f'alias operand-changed {out}'
   return out
